@@ -14,9 +14,9 @@ EXPLANATION = (
     "its first token only, of an alternation with `certainty` over all branches, and weakens an optional repetition to "
     "`sometimes`; (begin) every rooting leaf emitted by the encoder at an initial position has a language inside "
     "SEP.Sigma* (shared with the C01 emission table); (semantic) a literal sequence is semantic iff its text is `.` or "
-    "`..`, and Glob::has_semantic_literals is `any` over Token::literals.  That a built glob never reports `sometimes` "
+    "`..`, Glob::has_semantic_literals is `any` over Token::literals, and (dots) on a catalogue of buildable expressions with `.` / `..` at every position (after / before a separator or tree wildcard, at either end, inside alternations and repetitions two levels deep) Token::literals yields a semantic literal whenever a component delimited on both sides is spelled `.` or `..`.  That a built glob never reports `sometimes` "
     "follows from the rule checker (C06) and is reported there.")
-RULES = "C12.sound (TABLE on a catalogue: verdict vs. language), C12.rooting (TABLE), C12.begin (EMIT), C12.semantic (TABLE+EFFECT)"
+RULES = "C12.sound (TABLE on a catalogue: verdict vs. language), C12.rooting (TABLE), C12.begin (EMIT), C12.semantic (TABLE+EFFECT), C12.dots (TABLE on a catalogue: Token::literals vs. delimited dot components)"
 
 WHEN = "query::When"
 
@@ -332,10 +332,29 @@ def rule_dots(F, R, tier):
     sem = F.find("token::LiteralSequence::is_semantic_literal")
     _DOT_STATE.update(J=exhaust.Judge(F), lits=lits, sem=sem)
     cat = _dot_catalogue(tier)
-    jobs = min(16, os.cpu_count() or 1)
-    ctx = multiprocessing.get_context("fork")
-    with ctx.Pool(jobs) as pool:
-        results = pool.map(_dot_job, cat, chunksize=16)
+    # one computation per tree state (facts file) and state of the machinery; shared by repeated runs
+    import fcntl, hashlib, json
+    from .. import build
+    h = hashlib.sha256()
+    h.update(os.path.basename(F.path).encode())
+    for mod in ("rules/c12.py", "rules/exhaust.py", "rules/tokens.py", "teval.py", "models.py"):
+        with open(os.path.join(build.VERIF, "sa", mod), "rb") as f:
+            h.update(f.read())
+    os.makedirs(os.path.join(build.CACHE, "exhaust"), exist_ok=True)
+    path = os.path.join(build.CACHE, "exhaust", "dots-%s-%s.json" % (tier, h.hexdigest()[:20]))
+    with open(os.path.join(build.CACHE, "lock-exhaust-dots-%s" % tier), "w") as lock:
+        fcntl.flock(lock, fcntl.LOCK_EX)
+        if os.path.exists(path) and os.environ.get("VERIF_NO_CACHE") != "1":
+            with open(path) as f:
+                results = json.load(f)
+        else:
+            jobs = min(16, os.cpu_count() or 1)
+            ctx = multiprocessing.get_context("fork")
+            with ctx.Pool(jobs) as pool:
+                results = pool.map(_dot_job, cat, chunksize=16)
+            with open(path + ".new", "w") as f:
+                json.dump(results, f)
+            os.replace(path + ".new", path)
     n = pos = 0
     for text, status, got, want in results:
         if status != "accepted":
